@@ -102,6 +102,9 @@ pub fn opt_transform(parent_node: &Node, tag_name: &str) -> Result<Option<Transf
 }
 
 pub fn gen_string<T: Display>(tag_name: &str, value: &T) -> String {
+    // The sequence "]]>" cannot occur inside a CDATA section because it terminates it.
+    // It needs to be split up and distributed over two adjacent CDATA sections.
+    let value = value.to_string().replace("]]>", "]]]]><![CDATA[>");
     format!("<{tag_name} type=\"String\"><![CDATA[{value}]]></{tag_name}>\n")
 }
 
